@@ -84,3 +84,9 @@ pub fn point(name: &str) {
         }
     }
 }
+
+/// Re-export of the crate-private path normaliser (tie for the C08 model).
+#[must_use]
+pub fn normalize_for_matching(path: &std::path::Path) -> std::path::PathBuf {
+    crate::output::path::normalize_for_matching(path)
+}
